@@ -82,11 +82,17 @@ def step (line : String) : String :=
     | "set_root" => let r := setRoot rw sc; answer (unitRes r.1) (r.2.map showRContact)
     | "unset_root" => let r := unsetRoot sc; answer (unitRes r.1) (r.2.map showRContact)
     | _ => "bad-op"
-  | ["e2e", isImage, op, scopes, own, locs, cache, listings, valids, state] =>
+  | ["e2e", isImage, op, scopes, own, nets, locs, cache, listings, valids, state] =>
     -- the whole stack: `listings` are the raw directory listings of the mirrors, mapped by `transferShow`
     match own.splitOn "," with
     | [gw, host, swarm, shared] =>
-      let e : Env := { gateway := gw, host := host, swarmPool := swarm, sharedPool := shared, netGateway := [], netHost := [] }
+      let ov := (kv nets).map fun (n, v) =>
+        match v.splitOn "," with
+        | [g, h] => (n, g, h)
+        | _ => (n, "~", "~")
+      let e : Env := { gateway := gw, host := host, swarmPool := swarm, sharedPool := shared,
+                       netGateway := ov.filterMap (fun (n, g, _) => if g == "~" then none else some (n, g)),
+                       netHost := ov.filterMap (fun (n, _, h) => if h == "~" then none else some (n, h)) }
       let mt := (kv listings).map fun (k, v) => (k, transferShow (isImage == "1") ((v.splitOn ",").filter (· != "")))
       let vt := kv valids
       let w : World := { cache := words cache,
